@@ -482,10 +482,17 @@ func (in *Interp) checkStrong(extra []*Term) (Result, map[string]uint64) {
 		key := in.crossKey(all)
 		r2, seen := in.crossCache[key]
 		if !seen {
-			if in.cross == nil {
-				in.cross = NewSolverBin(in.cfg.crossSolver, 20000)
+			if in.hardArith(all) {
+				// wide division / multiplication chains: second opinion through the integer translation on z3 4.8.12
+				// (one-shot, hard limit); the bit-vector pipe does not return from these within minutes
+				r2 = in.solver.CrossInt(in.tb, all, 15*time.Second)
+				in.crossInt++
+			} else {
+				if in.cross == nil {
+					in.cross = NewSolverBin(in.cfg.crossSolver, 20000)
+				}
+				r2, _ = in.cross.CheckSet(all, nil)
 			}
-			r2, _ = in.cross.CheckSet(all, nil)
 			if in.crossCache == nil {
 				in.crossCache = map[string]Result{}
 			}
